@@ -4,6 +4,7 @@ import ShellOp.Model.SetLock
 import ShellOp.Proofs.Routing
 import ShellOp.Proofs.LockOrder
 import ShellOp.Proofs.WaitHead
+import ShellOp.Model.Compact
 /-!
 # C03 — a queue runs one task at a time, head first; queues do not block each other
 
@@ -563,5 +564,80 @@ example :
     WaitHead.staleWait 5 ⟨true, [some 1, some 2], [some 1, some 2]⟩
       [⟨false, [some 1, some 2], [some 1, some 2]⟩, ⟨true, [some 2], [some 2]⟩] = some (some 1) := by
   decide
+
+
+/-! ## Sixth wave: the converter's two neighbouring keys; compaction while the consumer appends -/
+
+/-- **C03.3, `main` when absent — whatever else the binding says.** The queue the version-1 converter gives
+a `kubernetes` binding depends on its `queue` key only: the name written, `main` when there is none —
+for every value of `waitForSynchronization` (the key the converter reads right next to it). -/
+theorem kube_queue_ignores_wait_for_synchronization (queue wfs : String) :
+    (Routing.convKube queue wfs).1 = if queue = "" then "main" else queue := by
+  have hd : Routing.defaultQueue = "main" := by decide
+  unfold Routing.convKube
+  simp only [hd]
+  by_cases h : queue = "" <;> simp [h]
+
+/-- … and `waitForSynchronization` is switched off only by the literal `false` on a binding that names a queue. -/
+theorem wait_for_synchronization_of_binding (queue wfs : String) :
+    (Routing.convKube queue wfs).2 = false ↔ (wfs = "false" ∧ queue ≠ "") := by
+  unfold Routing.convKube
+  by_cases h1 : wfs = "false" <;> by_cases h2 : queue = "" <;> simp [h1, h2]
+
+example : Routing.convKube "" "false" = ("main", true) ∧ Routing.convKube "slow" "false" = ("slow", false) ∧
+    Routing.convKube "" "" = ("main", true) := by decide
+
+theorem foldl_addLast_eq (l : List Queue.Id) (items : Queue.Items) :
+    l.foldl Queue.addLast items = items ++ l.map some := by
+  induction l generalizing items with
+  | nil => simp
+  | cons a l ih => simp [List.foldl, ih, Queue.addLast, List.append_assoc]
+
+theorem filter_new_kept (drop : List Queue.Id) (l : List Queue.Id) (h : ∀ t ∈ l, t ∉ drop) :
+    Queue.filter (l.map some) (Compact.keepFn drop) = l.map some := by
+  induction l with
+  | nil => rfl
+  | cons a l ih =>
+    have ha : Compact.keepFn drop a = true := by
+      simp [Compact.keepFn, h a (by simp)]
+    have ih' := ih (fun t ht => h t (by simp [ht]))
+    unfold Queue.filter at ih' ⊢
+    simp [ha, ih']
+
+/-- **C03.2/3, compaction keeps the receive order.** The handler of a queue drops tasks from its queue
+(`Filter`) while the consumer appends the tasks `new` of later events — for EVERY schedule `k` (how many of
+the appends get the queue lock before the `Filter` does): the queue then holds its old tasks that were not
+dropped, in their old order, followed by the new tasks in receive order. (Hypothesis: the handler drops
+only tasks it has seen — the new ids are not in `drop`.) -/
+theorem compaction_keeps_receive_order (drop : List Queue.Id) (items : Queue.Items) (new : List Queue.Id)
+    (k : Nat) (hnew : ∀ t ∈ new, t ∉ drop) :
+    Compact.compact drop items new k = Queue.filter items (Compact.keepFn drop) ++ new.map some := by
+  unfold Compact.compact
+  rw [foldl_addLast_eq, foldl_addLast_eq]
+  have hsplit : Queue.filter (items ++ (new.take k).map some) (Compact.keepFn drop)
+      = Queue.filter items (Compact.keepFn drop) ++ Queue.filter ((new.take k).map some) (Compact.keepFn drop) := by
+    unfold Queue.filter; simp [List.filter_append]
+  rw [hsplit, filter_new_kept drop (new.take k) (fun t ht => hnew t (List.mem_of_mem_take ht))]
+  rw [List.append_assoc, ← List.map_append, List.take_append_drop]
+
+/-- … so the task being executed (kept by its own handler) is still the head, whatever arrived meanwhile. -/
+theorem compaction_keeps_the_running_head (drop : List Queue.Id) (t : Queue.Id) (rest : Queue.Items)
+    (new : List Queue.Id) (k : Nat) (hnew : ∀ x ∈ new, x ∉ drop) (ht : t ∉ drop) :
+    Queue.getFirst (Compact.compact drop (some t :: rest) new k) = some t := by
+  rw [compaction_keeps_receive_order drop _ new k hnew]
+  have hk : Compact.keepFn drop t = true := by simp [Compact.keepFn, ht]
+  unfold Queue.filter Queue.getFirst
+  simp [List.filter, hk]
+
+/-- non-vacuity: A runs, B is dropped, E arrives — before or after the `Filter` — and ends up last -/
+example : Compact.compact [2] [some 1, some 2, some 3, some 4] [5] 0 = [some 1, some 3, some 4, some 5] ∧
+    Compact.compact [2] [some 1, some 2, some 3, some 4] [5] 1 = [some 1, some 3, some 4, some 5] := by decide
+
+/-- witness: a `Filter` that works on a snapshot and puts what was appended meanwhile in front of the kept
+tasks makes the LATEST event's task the head — in front of the task being executed and of every earlier
+event's task. -/
+theorem snapshot_filter_prepending_breaks_the_order :
+    Compact.snapshotPrepend [2] [some 1, some 2, some 3, some 4] [5] = [some 5, some 1, some 3, some 4] ∧
+    Queue.getFirst (Compact.snapshotPrepend [2] [some 1, some 2, some 3, some 4] [5]) ≠ some 1 := by decide
 
 end ShellOp.Worker.C03
